@@ -91,9 +91,10 @@ func VH_orphan_pool_add() {
 		add(vSeqTx(23, 0xffffffff, y))
 	}
 	vAssert(vOrphansConsistent(mp), "harness builds a consistent orphan pool")
-	limit := vNondetLen("maxOrphans", 4)
+	limit := vNondetLen("maxOrphans", 3)
 	mp.cfg.Policy.MaxOrphanTxs = limit
-	mp.cfg.Policy.MaxOrphanTxSize = 100000
+	maxSize := []int{70, 71, 84, 135}[vNondetLen("maxOrphanSize", 3)]
+	mp.cfg.Policy.MaxOrphanTxSize = maxSize
 	before := len(mp.orphans)
 	vAssume(before <= limit || limit == 0) // reachable states respect the limit
 	var parent wire.OutPoint
@@ -112,11 +113,19 @@ func VH_orphan_pool_add() {
 		}
 	}
 	n := vSeqTx(24, 0xffffffff, parent)
+	// the newcomer may carry witness data: what is stored (and bounded) is the full serialization
+	if vNondetBool("withWitness") {
+		n.MsgTx().TxIn[0].Witness = [][]byte{make([]byte, []int{10, 60}[vNondetLen("witnessLen", 1)])}
+	}
+	full := n.MsgTx().SerializeSize()
 	err := mp.maybeAddOrphan(n, Tag(0))
-	vAssert(err == nil, "a small orphan is not refused")
+	vAssert((err == nil) == (full <= maxSize), "an orphan is refused iff its full serialized size (witness included) exceeds the limit")
 	vAssert(vOrphansConsistent(mp), "dependency index == inputs of pooled orphans")
 	_, hasN := mp.orphans[*n.Hash()]
-	vAssert(hasN == (limit > 0), "the new orphan is stored iff orphans are allowed")
+	vAssert(hasN == (limit > 0 && full <= maxSize), "the new orphan is stored iff orphans are allowed and it is small enough")
+	if err != nil {
+		vAssert(len(mp.orphans) == before, "a refused orphan changes nothing")
+	}
 	vAssert(len(mp.orphans) <= limit || limit == 0, "orphan pool stays within the configured limit")
 	if limit == 0 {
 		vAssert(len(mp.orphans) == before, "with orphans disabled nothing changes")
@@ -229,7 +238,7 @@ func VH_ancestors_descendants_conflicts() {
 	mp := vNewPool()
 	var x wire.OutPoint
 	x.Hash[0] = 1
-	a := vSeqTx(51, 0xffffffff, x)
+	a := vSeqTx(51, 0xfffffffd, x)
 	b := vSeqTx(52, 0xffffffff, wire.OutPoint{Hash: *a.Hash(), Index: 0})
 	c := vSeqTx(53, 0xffffffff, wire.OutPoint{Hash: *a.Hash(), Index: 1})
 	d := vSeqTx(54, 0xffffffff, wire.OutPoint{Hash: *b.Hash(), Index: 0}, wire.OutPoint{Hash: *c.Hash(), Index: 0})
@@ -269,7 +278,20 @@ func VH_ancestors_descendants_conflicts() {
 		}
 	}
 	vAssert(vHasOnly(mp.txDescendants(a, nil), desc...), "descendants of A: everything pooled that spends from it, transitively")
-	r := vSeqTx(55, 0xffffffff, x)
-	vAssert(vHasOnly(mp.txConflicts(r), append(desc, a)...), "conflicts of a double spend of A's input: A and all its descendants")
+	// the double spend may come with further inputs that conflict with nothing, before or after the conflicting one
+	var fresh1, fresh2 wire.OutPoint
+	fresh1.Hash[0], fresh2.Hash[0] = 0x71, 0x72
+	var prevs []wire.OutPoint
+	if vNondetBool("freshInputFirst") {
+		prevs = append(prevs, fresh1)
+	}
+	prevs = append(prevs, x)
+	if vNondetBool("freshInputLast") {
+		prevs = append(prevs, fresh2)
+	}
+	r := vSeqTx(55, 0xffffffff, prevs...)
+	vAssert(vHasOnly(mp.txConflicts(r), append(desc, a)...), "conflicts of a double spend of A's input: A and all its descendants, wherever the conflicting input sits")
+	isRepl, derr := mp.checkPoolDoubleSpend(r)
+	vAssert(derr == nil && isRepl, "and the pool double-spend gate flags it as a replacement (A signals)")
 	vReach("end")
 }
